@@ -12,7 +12,7 @@ structure Cx where
   N : List Src.Node
   hlab : (labelIds rs.flatten).Nodup
   /-- the label zone of the node table: the nodes `allocLabels` made have indices below `Z` -/
-  Z : Nat := 0
+  Z : Nat → Prop := fun _ => False
   /-- the label table of the front end at the end: user label name ↦ label number -/
   named : List (String × Nat) := []
   /-- the user labels defined somewhere in the program -/
@@ -22,7 +22,7 @@ structure Cx where
 structure EnvOK (cx : Cx) (env : Src.Env) : Prop where
   subst : env.subst = []
   ret : env.ret = none
-  dense : ∀ n i, env.labels.lookup n = some i → 0 < i ∧ i < cx.Z
+  dense : ∀ n i, env.labels.lookup n = some i → cx.Z i
 
 theorem envOK_empty (cx : Cx) : EnvOK cx {} := ⟨rfl, rfl, fun n i h => by cases h⟩
 
@@ -189,7 +189,7 @@ theorem Pushes.trans {a b c : Src.B} (h1 : Pushes a b) (h2 : Pushes b c) : Pushe
   obtain ⟨y, hy⟩ := h2
   exact ⟨x ++ y, by rw [hy, hx, List.append_assoc]⟩
 theorem Pushes.push (b : Src.B) (n : Src.Node) : Pushes b (b.push n).1 := ⟨[n], (tbl_push b n).1⟩
-theorem Pushes.grow {Z : Nat} {b b' : Src.B} (h : Pushes b b') : Grow Z b b' := by
+theorem Pushes.grow {Z : Nat → Prop} {b b' : Src.B} (h : Pushes b b') : Grow Z b b' := by
   obtain ⟨x, hx⟩ := h; exact Grow.of_append hx
 theorem Pushes.same {b b' : Src.B} (h : Pushes b b') {i : Nat} (hi : i < (tbl b).length) : (tbl b')[i]? = (tbl b)[i]? := by
   obtain ⟨x, hx⟩ := h; rw [hx, List.getElem?_append_left hi]
